@@ -210,13 +210,16 @@ def request_oracle(tags, events, trace):
             if ev is None:
                 collecting = 0
                 continue
+            ev = ev[:6144]          # the client reads at most PACKET_SIZE bytes of a datagram
             if collecting > 0:
                 collecting -= 1
                 continue
             if ev[:1] == b"\xfe" and len(ev) > 8:
                 total = (ev[8] & 15) if gold else ev[8]
                 collecting = max(total - 1, 0)
-            elif ev[:5] == b"\xff\xff\xff\xff\x41":
+            elif len(ev) >= 5 and ev[4] == 0x41:
+                # the client does not inspect the 4 header bytes of an unsplit packet; whatever
+                # carries the challenge kind is answered as a challenge
                 pending = ev[5:].hex()
         elif tok[0] == "S":
             p, _, data = tok[1:].partition(":")
@@ -230,7 +233,7 @@ def request_oracle(tags, events, trace):
             if pending is not None:
                 want = (INFO_PAYLOAD + pending) if k == "54" else pending
                 if body != want or k != kind:
-                    return "challenge %s not echoed: sent %s" % (pending, data[:120])
+                    return "challenge %s not echoed: sent %s" % (pending[:80], data[:120])
                 pending = None
             else:
                 if k not in ("54", "55", "56") or body != default:
@@ -240,4 +243,63 @@ def request_oracle(tags, events, trace):
             continue
         else:
             return "unexpected trace event " + tok[:40]
+    return None
+
+
+# ---- malformed stream (C01, C13) ----
+EXTREME = [b"\x00", b"\xff", b"\x7f", b"\x80", b"\x01", b"\xfe",
+           b"\xff\xff", b"\x00\x00", b"\xff\x7f", b"\x00\x80",
+           b"\xff\xff\xff\xff", b"\x00\x00\x00\x00", b"\xff\xff\xff\x7f", b"\x00\x00\x00\x80", b"\x00\x00\x10\x01", b"\x00\x00\x00\x01"]
+
+
+def mutate(events, r):
+    """one mutation of a script (list of bytes / None); returns (kind, new events)"""
+    evs = list(events)
+    idx = [i for i, e in enumerate(evs) if e is not None]
+    k = r.below(12)
+    if not idx:
+        return "random", [r.bytes(r.below(40))]
+    i = r.choice(idx)
+    d = evs[i]
+    if k == 0:
+        evs[i] = d[:r.below(len(d) + 1)]; return "truncate", evs
+    if k == 1:
+        evs[i] = d[:min(len(d), 4 + r.below(12))]; return "truncate-head", evs
+    if k in (2, 3, 4):
+        pos = r.below(max(len(d), 1))
+        x = r.choice(EXTREME)
+        evs[i] = d[:pos] + x + d[pos + len(x):]; return "extreme@%d" % min(pos, 24), evs
+    if k == 5:
+        del evs[i]; return "drop", evs
+    if k == 6:
+        evs.insert(r.below(len(evs) + 1), d); return "duplicate", evs
+    if k == 7:
+        j = r.choice(idx); evs[i], evs[j] = evs[j], evs[i]; return "swap", evs
+    if k == 8:
+        evs[i] = b""; return "empty", evs
+    if k == 9:
+        evs[i] = d + bytes(r.choice([0, 0xff, 0x41]) for _ in range(r.choice([1, 100, 7000, 65000 - len(d) if len(d) < 65000 else 1]))); return "oversize", evs
+    if k == 10:
+        evs[i] = None; return "timeout", evs
+    # k == 11: delete a terminator / flip a single bit
+    pos = r.below(max(len(d), 1))
+    if d and d[pos] == 0:
+        evs[i] = d[:pos] + d[pos + 1:]; return "del-terminator", evs
+    evs[i] = d[:pos] + bytes([d[pos] ^ (1 << r.below(8))]) + d[pos + 1:] if d else d
+    return "bitflip", evs
+
+
+def all_truncations(events, which, stride=1):
+    d = events[which]
+    out = []
+    for n in range(0, len(d), stride):
+        e2 = list(events); e2[which] = d[:n]; out.append(e2)
+    return out
+
+
+def parse_alloc(side):
+    for part in side.split(";"):
+        if part.startswith("alloc="):
+            a, b = part[6:].split(",")
+            return int(a), int(b)
     return None
